@@ -200,3 +200,42 @@ Theorem transform_kernel_is_source : forall n indptr ids md len outs data,
   (let '(d, _, c) := transform_loop n indptr ids (md_tuple md len) data outs [] in (d, c)).
 Proof. exact transform_kernel_bridge. Qed.
 Print Assumptions transform_kernel_is_source.
+
+(* ---- tie to the source, python level: the wrappers the theorems above are about ARE the methods of
+   biom/table.py.  Gen/TransformWrapGen.v is regenerated from Table.transform / Table.pa / Table.rankdata
+   by tools/py2v_wrap on every check (vocabulary Gen/WrapPrelude.v: a two-slot heap for receiver / copy,
+   the compressed matrix per vector of its major axis, the kernel call, eliminate_zeros, the store).
+   The function handed to transform is any f; the hand model's [outs] are its results on transform_calls.
+   Partial: the bridges hold when no vector stores a position twice (part of lay_wf / lay_ok, which
+   every theorem above assumes) and, for inplace=False, when the receiver's metadata is in the
+   constructor's normal form (copy() goes through the constructor; every public path leaves it so). *)
+From BiomV Require Import Model.Reorder Gen.WrapPrelude Gen.TransformWrapGen Proofs.GenBridgeWrapProofs.
+Theorem transform_is_source_partial : forall lay f a inplace t,
+  Forall (@NoDup nat) lay -> (inplace = true \/ normal t) ->
+  transform_gen lay t f a inplace = transform a inplace lay (outs_of f a lay t) t.
+Proof. exact transform_bridge. Qed.
+Print Assumptions transform_is_source_partial.
+
+Theorem pa_is_source_partial : forall lay one inplace t,
+  Forall (@NoDup nat) lay -> (inplace = true \/ normal t) ->
+  pa_gen lay one t inplace = pa one inplace lay t.
+Proof. exact pa_bridge. Qed.
+Print Assumptions pa_is_source_partial.
+
+Theorem rankdata_is_source_partial : forall lay (rk : Z -> list Z -> list Z) a inplace m t,
+  Forall (@NoDup nat) lay -> (inplace = true \/ normal t) ->
+  rankdata_gen lay rk t a inplace m = rankdata (rk m) a inplace lay t.
+Proof. exact rankdata_bridge. Qed.
+Print Assumptions rankdata_is_source_partial.
+
+(* the hypotheses are satisfiable (the table and layout of ex_hyps), and lay_wf gives the first *)
+Example ex_is_source_hyps : Forall (@NoDup nat) [[1;0];[];[0]] /\ normal ex_table.
+Proof.
+  split; [repeat constructor; simpl; intuition discriminate|].
+  split; vm_compute; reflexivity.
+Qed.
+Theorem lay_wf_nodup : forall vs lay, lay_wf vs lay -> Forall (@NoDup nat) lay.
+Proof.
+  intros vs lay H. induction H as [|v o vs lay Ho _ IH]; constructor; [|exact IH]. exact (proj1 Ho).
+Qed.
+Print Assumptions lay_wf_nodup.
